@@ -123,3 +123,241 @@ class C03(Base):
             c4 = [rng.rat() for _ in range(4)]
             out.append(Case("o.v.dot_bilinear", a4 + b4 + c4 + [rng.rat(), rng.rat()], family="oracle"))
         return out
+
+
+PRIMES = [2, 3, 5, 7, 11, 13, 17, 19, 23, 29, 31, 37, 41, 43, 47, 53, 59, 61, 67, 71, 73, 79, 83, 89, 97,
+          101, 103, 107, 109, 113, 127, 131]
+
+
+def rand_mat(rng, n, style=None):
+    style = style or rng.choice(["small", "small", "mixed", "primes"])
+    if style == "small":
+        return [rng.small() for _ in range(n * n)]
+    if style == "primes":
+        ps = list(PRIMES)
+        out = []
+        for _ in range(n * n):
+            out.append(F(ps.pop(rng.below(len(ps)))) * rng.choice([1, -1]))
+        return out
+    return [rng.rat() for _ in range(n * n)]
+
+
+def singular_mat(rng, n):
+    """exactly singular: last column is a combination of the others (column-major flat list)"""
+    cols = [[rng.small() for _ in range(n)] for _ in range(n - 1)]
+    co = [rng.small() for _ in range(n - 1)]
+    last = [sum(co[j] * cols[j][i] for j in range(n - 1)) for i in range(n)]
+    cols.append(last)
+    # shuffle columns
+    for i in range(n - 1, 0, -1):
+        j = rng.below(i + 1)
+        cols[i], cols[j] = cols[j], cols[i]
+    return [x for c in cols for x in c]
+
+
+def tiny_det_mat(rng, n):
+    """unimodular-ish small integer matrix with one column scaled by 2^-200: det tiny, non-zero"""
+    while True:
+        m = [rng.rng(-3, 3) for _ in range(n * n)]
+        # quick determinant via fractions
+        if det_flat([F(x) for x in m], n) != 0:
+            break
+    c = rng.below(n)
+    out = [F(x) for x in m]
+    for r in range(n):
+        out[c * n + r] *= F(1, 2 ** 200)
+    return out
+
+
+def det_flat(m, n):
+    a = [[m[c * n + r] for c in range(n)] for r in range(n)]
+    det = F(1)
+    for i in range(n):
+        p = None
+        for r in range(i, n):
+            if a[r][i] != 0:
+                p = r
+                break
+        if p is None:
+            return F(0)
+        if p != i:
+            a[i], a[p] = a[p], a[i]
+            det = -det
+        det *= a[i][i]
+        for r in range(i + 1, n):
+            f = a[r][i] / a[i][i]
+            for c in range(i, n):
+                a[r][c] -= f * a[i][c]
+    return det
+
+
+def perm_sign_mat(rng, n):
+    perm = list(range(n))
+    for i in range(n - 1, 0, -1):
+        j = rng.below(i + 1)
+        perm[i], perm[j] = perm[j], perm[i]
+    out = [F(0)] * (n * n)
+    for c in range(n):
+        out[c * n + perm[c]] = F(rng.choice([1, -1]))
+    return out
+
+
+_c01 = ["new", "id", "row", "col", "transpose", "diagonal", "trace", "from_value", "from_diagonal",
+        "identity", "one", "zero", "add", "sub", "neg", "mul_s", "div_s", "rem_s", "mul_v", "mul",
+    "sum_list", "product_list", "product_list_ref"]
+_C01_OPS = [f"m{n}.{o}" for n in (2, 3, 4) for o in _c01] + [
+    "m3.from_translation", "m4.from_translation", "m3.from_scale", "m4.from_scale",
+    "m3.from_nonuniform_scale", "m4.from_nonuniform_scale", "m2.to_m3", "m2.to_m4", "m3.to_m4",
+    "m3.transform_vector2", "m3.transform_point2", "m3.transform_vector", "m3.transform_point",
+    "m4.transform_vector", "m4.transform_point", "m3.concat2", "m3.concat", "m4.concat",
+    "m3.concat_self2", "m4.concat_self", "p3.to_homogeneous", "p3.from_homogeneous"]
+
+
+@prop("C01")
+class C01(Base):
+    title = "matrix products follow the column-major, column-vector convention; constructors; ring action"
+    design_ref = "§6 C01"
+    ops = _C01_OPS
+    oracle_ops = ["o.m2.product", "o.m3.product", "o.m4.product", "o.m2.ring", "o.m3.ring", "o.m4.ring",
+                  "o.m4.constructors", "o.m3.constructors", "o.m.embed"]
+
+    def families(self, rng, tier):
+        out = []
+        reps = 4 if tier == "quick" else 60
+        for n in (2, 3, 4):
+            for _ in range(reps):
+                a = rand_mat(rng, n, "primes")
+                b = rand_mat(rng, n, "primes")
+                v = rng.distinct(n)
+                # both operand orders; entries all distinct
+                out.append(Case(f"m{n}.mul", a + b, family="primes"))
+                out.append(Case(f"m{n}.mul", b + a, family="primes"))
+                out.append(Case(f"m{n}.mul_v", a + v, family="primes"))
+                out.append(Case(f"m{n}.transpose", a, family="primes"))
+                out.append(Case(f"m{n}.new", a, family="primes"))
+                for i in range(n + 2):
+                    out.append(Case(f"m{n}.row", a, [i], family="index"))
+                    out.append(Case(f"m{n}.col", a, [i], family="index"))
+        for _ in range(reps):
+            out.append(Case("m4.transform_point", rand_mat(rng, 4, "primes") + rng.distinct(3), family="primes"))
+            # w = 0 after transformation: division by zero convention on both sides
+            out.append(Case("p3.from_homogeneous", rng.distinct(3) + [F(0)], family="edge"))
+        return out
+
+    def oracle_cases(self, rng, tier):
+        out = []
+        k = 12 if tier == "quick" else 600
+        for n in (2, 3, 4):
+            for _ in range(k):
+                out.append(Case(f"o.m{n}.product", rand_mat(rng, n) + rand_mat(rng, n) + [rng.rat() for _ in range(2 * n + 1)], family="oracle"))
+                out.append(Case(f"o.m{n}.ring", rand_mat(rng, n) + rand_mat(rng, n) + rand_mat(rng, n) + [rng.rat() for _ in range(n + 1)], family="oracle"))
+        for _ in range(k):
+            out.append(Case("o.m4.constructors", [rng.rat() for _ in range(13)], family="oracle"))
+            out.append(Case("o.m3.constructors", [rng.rat() for _ in range(9)], family="oracle"))
+            out.append(Case("o.m.embed", rand_mat(rng, 2) + rand_mat(rng, 2) + rand_mat(rng, 3) + rand_mat(rng, 3), family="oracle"))
+        return out
+
+
+_c02 = ["det", "invert", "transpose", "transpose_self", "swap_rows", "swap_columns", "swap_elements",
+            "replace_col", "mul"]
+_C02_OPS = [f"m{n}.{o}" for n in (2, 3, 4) for o in _c02] + [
+        "m3.inverse_transform2", "m3.inverse_transform", "m4.inverse_transform",
+        "m3.inverse_transform_vector2", "m3.inverse_transform_vector", "m4.inverse_transform_vector",
+        "v4.truncate_n"]
+
+
+@prop("C02")
+class C02(Base):
+    title = "inverse, determinant, transpose and swaps obey linear algebra"
+    design_ref = "§6 C02"
+    ops = _C02_OPS
+    oracle_ops = ["o.m{}.{}".format(n, o) for n in (2, 3, 4) for o in ("inverse", "det_laws", "swaps")]
+
+    def families(self, rng, tier):
+        out = []
+        reps = 6 if tier == "quick" else 150
+        for n in (2, 3, 4):
+            for _ in range(reps):
+                s = singular_mat(rng, n)
+                out.append(Case(f"m{n}.invert", s, family="singular"))
+                out.append(Case(f"m{n}.det", s, family="singular"))
+                # singular as a product with a singular factor
+                t = tiny_det_mat(rng, n)
+                out.append(Case(f"m{n}.invert", t, family="tiny-det"))
+                out.append(Case(f"m{n}.det", t, family="tiny-det"))
+                p = perm_sign_mat(rng, n)
+                out.append(Case(f"m{n}.invert", p, family="perm"))
+                out.append(Case(f"m{n}.det", p, family="perm"))
+                out.append(Case(f"m{n}.invert", rand_mat(rng, n, "primes"), family="primes"))
+                out.append(Case(f"m{n}.det", rand_mat(rng, n, "primes"), family="primes"))
+            out.append(Case(f"m{n}.invert", [F(0)] * (n * n), family="singular"))
+            # all index pairs (exhaustive, incl. out of range)
+            m = rand_mat(rng, n, "primes")
+            for a in range(n + 2):
+                for b in range(n + 2):
+                    out.append(Case(f"m{n}.swap_rows", m, [a, b], family="index-exhaustive"))
+                    out.append(Case(f"m{n}.swap_columns", m, [a, b], family="index-exhaustive"))
+                out.append(Case(f"m{n}.replace_col", m + rng.distinct(n), [a], family="index-exhaustive"))
+            for a in range(n + 1):
+                for b in range(n + 1):
+                    for c in range(n + 1):
+                        for d in range(n + 1):
+                            if tier == "quick" and n == 4 and rng.below(4) != 0:
+                                continue
+                            out.append(Case(f"m{n}.swap_elements", m, [a, b, c, d], family="index-exhaustive"))
+        for s in (singular_mat(rng, 3), singular_mat(rng, 4)):
+            pass
+        out.append(Case("m4.inverse_transform", singular_mat(rng, 4), family="singular"))
+        out.append(Case("m3.inverse_transform", singular_mat(rng, 3), family="singular"))
+        out.append(Case("m4.inverse_transform_vector", singular_mat(rng, 4) + rng.distinct(3), family="singular"))
+        return out
+
+    def oracle_cases(self, rng, tier):
+        out = []
+        k = 12 if tier == "quick" else 600
+        for n in (2, 3, 4):
+            for _ in range(k):
+                out.append(Case(f"o.m{n}.inverse", rand_mat(rng, n), family="oracle"))
+                out.append(Case(f"o.m{n}.inverse", singular_mat(rng, n), family="oracle-singular"))
+                out.append(Case(f"o.m{n}.inverse", tiny_det_mat(rng, n), family="oracle-tiny"))
+                out.append(Case(f"o.m{n}.det_laws", rand_mat(rng, n) + rand_mat(rng, n), family="oracle"))
+                out.append(Case(f"o.m{n}.swaps", rand_mat(rng, n, "primes") + rng.distinct(n),
+                                [rng.below(n) for _ in range(4)], family="oracle"))
+        return out
+
+
+@prop("C12")
+class C12(Base):
+    title = "points form an affine space; homogeneous coordinates"
+    design_ref = "§6 C12"
+    ops = ops_with_prefix("p1.", "p2.", "p3.")
+    oracle_ops = ["o.p1.affine", "o.p2.affine", "o.p3.affine", "o.p1.centroid", "o.p2.centroid",
+                  "o.p3.centroid", "o.p3.homogeneous"]
+
+    def families(self, rng, tier):
+        out = []
+        maxlen = 8 if tier == "quick" else 50
+        for n in (1, 2, 3):
+            for ln in range(0, maxlen + 1):
+                pts = []
+                for _ in range(ln):
+                    pts += [rng.rat() for _ in range(n)]
+                out.append(Case(f"p{n}.centroid", pts, family="centroid-len"))
+            for i in range(n + 2):
+                out.append(Case(f"p{n}.index", rng.distinct(n), [i], family="index"))
+        for k in (F(-1), F(1, 3), F(-7, 2), F(1, 2 ** 60), F(0)):
+            p = rng.distinct(3)
+            out.append(Case("p3.from_homogeneous", [x * k for x in p] + [k], family="homogeneous"))
+        return out
+
+    def oracle_cases(self, rng, tier):
+        out = []
+        k = 30 if tier == "quick" else 1500
+        for n in (1, 2, 3):
+            for _ in range(k):
+                out.append(Case(f"o.p{n}.affine", [rng.rat() for _ in range(4 * n)], family="oracle"))
+                ln = rng.rng(1, 9)
+                out.append(Case(f"o.p{n}.centroid", [rng.rat() for _ in range(ln * n)], family="oracle"))
+        for _ in range(k):
+            out.append(Case("o.p3.homogeneous", [rng.rat() for _ in range(3)] + [rng.rat_nz()], family="oracle"))
+        return out
